@@ -177,6 +177,7 @@ def worker(sh):
         if a is not None and b is not None and a != b:
             sh.violation('diff:prod-vs-san:gen', 'configurations disagree on %s' % lines[i], {'line': lines[i]})
     stage2, meta2 = [], []
+    pool = {}        # (kind, c) -> [(bytes, point layout)] : valid buffers of different parameter sets
     for line, (l, sig, mask), out in zip(lines, meta, outs):
         if out is None:
             continue
@@ -231,6 +232,8 @@ def worker(sh):
                 sh.sample({'object': ident, 'len': len(data), 'first_bytes': data[:24].hex()}, limit=5)
             # stage 2: single-element corruptions of this valid buffer
             pts = [(tag, off, n) for tag, off, n, _, _ in layout if tag in ('1', '2')]
+            if len(data) < 6000:
+                pool.setdefault((kind, c), []).append((data, pts, ident))
             if pts and rng.random() < (0.5 if sh.quick else 0.8):
                 for how in ('not-in-subgroup', 'off-curve', 'wrong-form', 'garbage'):
                     tag, off, n = rng.choice(pts)
@@ -252,6 +255,43 @@ def worker(sh):
                 sh.violation('corruption-accepted:%s:%s' % (kind, how), 'validating unmarshal accepted a buffer whose embedded G%s element at offset %d is invalid (%s) [%s]' % (tag, off, how, ident),
                              {'line': line[:2000]})
             sh.event('corrupt:%s' % kind, '%s/%s' % (how, 'c' if c else 'u'))
+    # stage 3: the destination object is REUSED (a caller that retries after a rejected buffer): unmarshal A, then B with one element
+    # made invalid (every element position in turn), then the intact B - the result must be what a fresh destination gives for B,
+    # and for parameters the stored pairing value must be e(g2, g1) of B
+    stage3, meta3 = [], []
+    for (kind, c), items in sorted(pool.items()):
+        if len(items) < 2:
+            continue
+        for bi, (B, pts, ident) in enumerate(items):
+            if sh.quick and bi >= 2 and kind not in ('wparams',):
+                break
+            A = items[(bi + 1) % len(items)][0]
+            cand = pts if (len(pts) <= 6 or not sh.quick) else pts[:5] + [pts[-1]]
+            for tag, off, n in cand:
+                how = rng.choice(['not-in-subgroup', 'off-curve', 'garbage'])
+                bad = B[:off] + invalid_element(tag, bool(c), how, rng) + B[off + n:]
+                stage3.append('unmseq %s %d 3 1 %s 1 %s 1 %s' % (kind, c, A.hex(), bad.hex(), B.hex()))
+                meta3.append((kind, c, 'A,B-bad@%s%d,B' % (tag, off), ident))
+            stage3.append('unmseq %s %d 2 %d %s 1 %s' % (kind, c, rng.randrange(2), A.hex(), B.hex()))
+            meta3.append((kind, c, 'A,B', ident))
+            stage3.append('unmseq %s %d 3 1 %s 1 %s 0 %s' % (kind, c, B.hex(), A.hex(), B.hex()))
+            meta3.append((kind, c, 'B,A,B-unchecked', ident))
+    for cfg in ('prod', 'san'):
+        outs3 = sh.run(cfg, stage3)
+        for line, (kind, c, shape, ident), out in zip(stage3, meta3, outs3):
+            if out is None:
+                continue
+            kv = {t.split('=')[0]: t.split('=')[1] for t in out if '=' in t}
+            if kv.get('fresh') != '1' or kv.get('acc', '').split(',')[-1] != '1':
+                sh.violation('reused-destination:%s:rejected' % kind, 'intact buffer rejected after the destination had been used before (%s) [%s, %s]: %s' % (shape, ident, cfg, ' '.join(out)), {'line': line[:6000], 'config': cfg})
+            elif kv.get('same') != '1' or kv.get('pairing') != '1':
+                sh.violation('reused-destination:%s:%s' % (kind, 'stale-pairing' if kv.get('pairing') != '1' else 'differs'),
+                             'unmarshalling into a destination that was used before (%s) gives an object different from unmarshalling into a fresh one [%s, %s]: %s'
+                             % (shape, ident, cfg, ' '.join(out)), {'line': line[:6000], 'config': cfg})
+            if 'bad' in shape and kv.get('acc', ',,').split(',')[1] == '1':
+                sh.violation('corruption-accepted:%s:in-sequence' % kind, 'invalid element accepted (%s) [%s]' % (shape, ident), {'line': line[:6000], 'config': cfg})
+            if cfg == 'prod':
+                sh.event('reused-destination:%s' % kind, '%s/%s' % ('c' if c else 'u', 'retry-after-rejection' if 'bad' in shape else shape))
 
 
 def run(ctx):
@@ -261,11 +301,11 @@ def run(ctx):
                 'free-slot subsets and signature support on/off: marshal into a buffer of exactly the reported length (twice over different fill bytes), recover the length, unmarshal through '
                 'the Go-binding protocol into exactly sized arrays (validating and not), compare objects, re-marshal; the byte layout is parsed by the reference model (flag byte, element '
                 'order, canonical coordinates, big-endian slot index, GT coefficients); then single embedded elements are replaced by invalid ones (outside the subgroup, off the curve, '
-                'wrong form, garbage) and validating unmarshal must reject; class = (object kind, encoding, l, sig, free slots) / (kind, corruption)')
+                'wrong form, garbage) and validating unmarshal must reject; then destinations are reused: A, B with one invalid element (each element position), intact B into the same object must equal B into a fresh object and, for parameters, store e(g2,g1) of B; class = (object kind, encoding, l, sig, free slots) / (kind, corruption)')
     ctx.extra['configs'] = ['prod', 'san']
     ctx.assumptions = ['library group equality used to compare objects', 'oracle/bls.py for layout and for constructing invalid elements']
     need = ['slot-index|bits16', 'slot-index|bits32', 'roundtrip:wsk|c/l9/sig1/free9', 'roundtrip:wparams|c/l0', 'roundtrip:wsk|c/l0', 'roundtrip:wsk|u/l9', 'roundtrip:wparams|u/l9', 'roundtrip:wct|', 'roundtrip:wsig|', 'roundtrip:wmaster|', 'roundtrip:lparams|', 'roundtrip:lid|',
-            'roundtrip:lmaster|', 'roundtrip:lsk|', 'roundtrip:lct|', 'corrupt:wparams|not-in-subgroup', 'corrupt:wsk|off-curve', 'corrupt:wct|', 'corrupt:lct|', 'corrupt:wsig|wrong-form']
+            'roundtrip:lmaster|', 'roundtrip:lsk|', 'roundtrip:lct|', 'corrupt:wparams|not-in-subgroup', 'corrupt:wsk|off-curve', 'corrupt:wct|', 'corrupt:lct|', 'corrupt:wsig|wrong-form', 'reused-destination:wparams|c/retry-after-rejection', 'reused-destination:wsk|c/retry-after-rejection', 'reused-destination:wparams|u/retry-after-rejection', 'reused-destination:wct|']
     for r in need:
         if not any(k.startswith(r) for k in ctx.classes):
             ctx.required_classes.add(r)
